@@ -473,7 +473,10 @@ Definition yaml_paths (E : env) (ap : option (list str)) (src : option str) : op
   end.
 Definition load_yaml (E : env) (d : yv) (a : args) (src : option str) : res tree :=
   load_dict E d {| a_ext := a_ext a; a_tv := a_tv a; a_ap := yaml_paths E (a_ap a) src |}.
-(* ProcessingPipelineResolver.resolve_pipeline(spec) for a file: from_yaml(f.read(), source_path=spec) *)
+(* ProcessingPipelineResolver.resolve_pipeline(spec) for a file: from_yaml(f.read(), source_path=spec).
+   ProcessingPipelineResolver.resolve reaches the same call for every file spec and for every *.yml file found
+   below a directory spec (resolve_spec -> resolve_path -> resolve_pipeline), with spec = the path found; the route
+   only determines which string plays the role of source_path, hence which base directory is in force. *)
 Definition load_resolver (E : env) (d : yv) (spec : str) : res tree := load_yaml E d default_args (Some spec).
 
 (* ---------- use: applying the pipeline to one rule whose values carry the placeholders `rem` ---------- *)
